@@ -5,6 +5,12 @@ from .. import cjit, corpus, kernels, layout_checks as L, lean, numeric, pipelin
 from .c08 import entity_perm_space, shape_inputs
 
 
+C05_KERNEL_THEOREMS = [
+    "Ffcx.LNodes.unread_irrelevant", "Ffcx.LNodes.reads_data_independent", "Ffcx.LNodes.disabled_irrelevant",
+    "Ffcx.LNodes.reads_in_blocks", "Ffcx.LNodes.blockOf_spec", "Ffcx.LNodes.readsAvoidB_eq", "Ffcx.LNodes.coeffAccess_reads",
+]
+
+
 def _entries(chk):
     ents = corpus.fixed() + corpus.expressions()
     if chk.tier == "thorough":
@@ -14,8 +20,36 @@ def _entries(chk):
     return ents
 
 
+INPUT_ARRAYS = ("w", "c", "coordinate_dofs", "entity_local_index", "quadrature_permutation")
+TUPLE_CAP = {"quick": 300, "thorough": 4000}
+
+
+def tuple_space(chk, c):
+    """(entity_local_index, quadrature_permutation) tuples of kernel `c`: ALL of them up to TUPLE_CAP[tier]; above the cap
+    (hexahedron / prism interior facets) the reduction C08 uses: every entity tuple at the extreme permutation tuples, every
+    permutation tuple at the extreme entity tuples, and a seeded sample of 20."""
+    space = entity_perm_space(c)
+    full = len(space)
+    if full > TUPLE_CAP[chk.tier]:
+        es = sorted({s_[0] for s_ in space})
+        ps = sorted({s_[1] for s_ in space})
+        keep = {(e_, p_) for e_ in es for p_ in (ps[0], ps[-1])} | {(e_, p_) for p_ in ps for e_ in (es[0], es[-1])}
+        rs = np.random.default_rng(chk.seed)
+        keep |= {space[int(i)] for i in rs.choice(len(space), size=20, replace=False)}
+        space = sorted(keep)
+        chk.notes.setdefault("reduced_entity_perm_products", []).append(f"{c.name}: {len(space)} of {full}")
+    return space
+
+
+def _sx(xs):
+    return "(" + " ".join(str(x) for x in xs) + ")"
+
+
 def read_sets(chk, d, ents):
-    """Read sets of w and c (Lean, all entity/permutation tuples) vs blocks and enabled flags."""
+    """Per kernel, through the Lean driver (`driver_layout`, commands of FfcxModel/Driver/ReadOnly.lean):
+    `readOnly W k` for every input array W (hypothesis of unread_irrelevant / disabled_irrelevant); for every
+    (entity, permutation) tuple `readsAvoidB` (reads of w avoid the blocks of the coefficients flagged disabled) and
+    `readsInBlocksB` + `blockOf` (per-read block attribution) with the blocks computed from UFL; read sets of c vs its extent."""
     for e in ents:
         try:
             cases, _, _ = kernels.cases_for_entry(e)
@@ -24,45 +58,79 @@ def read_sets(chk, d, ents):
             continue
         for c in cases:
             chk.programs += 1
-            rw, rc = set(), set()
-            unknown = False
-            space = entity_perm_space(c)
-            if len(space) > 40 and chk.tier == "quick":
-                space = space[::max(1, len(space) // 40)]
-            for ent, prm in space:
-                for name, acc in (("w", rw), ("c", rc)):
-                    r = d.ask(f"(reads {name} {c.ast_sexp} {shape_inputs(c, ent, prm)})")
-                    if r[0] != "ok":
-                        chk.disagree("read-set run fails", {"kernel": c.name, "reply": r})
-                        continue
-                    vals = r[1:]
-                    if vals and vals[0] == "unknown":
-                        unknown = True
-                        vals = vals[1:]
-                    acc.update(int(v) for v in vals)
-            if unknown:
-                chk.disagree("a subscript of w/c could not be evaluated statically", {"kernel": c.name})
-            # every read lies in the block of some coefficient / constant
-            if rw and (min(rw) < 0 or max(rw) >= c.sizes["w"]):
-                chk.violation(f"c05:w-read-outside:{e.name}", "read of w outside all coefficient blocks", {"kernel": c.name, "reads": sorted(rw)[:20]})
-            if rc and (min(rc) < 0 or max(rc) >= c.sizes["c"]):
-                chk.violation(f"c05:c-read-outside:{e.name}", "read of c outside all constant blocks", {"kernel": c.name, "reads": sorted(rc)[:20]})
+            # ---- readOnly W k, W = the kernel's input arrays
+            r = d.ask(f"(readonly {' '.join(INPUT_ARRAYS)} {c.ast_sexp})")
+            chk.case("read_only", c.name)
+            if r[0] != "ok" or len(r) != 1 + len(INPUT_ARRAYS):
+                chk.disagree("readonly command fails on a generated kernel", {"kernel": c.name, "reply": r})
+            else:
+                bad = [w for w, v in zip(INPUT_ARRAYS, r[1:]) if v != "true"]
+                if bad:
+                    chk.disagree("a generated kernel is not read-only in an input array (hypothesis `readOnly W k` of "
+                                 "unread_irrelevant / disabled_irrelevant fails)", {"kernel": c.name, "arrays": bad})
+            # ---- blocks of the contract (from UFL: kernels.py) and the flags of the IR
+            width = 2 if (c.kind == "integral" and c.integral_type == "interior_facet") else 1
+            if any(n % width for (_, _, n) in c.coef_blocks):
+                chk.disagree("coefficient block size is not a multiple of the width", {"kernel": c.name, "blocks": c.coef_blocks})
+                continue
+            dims = [n // width for (_, _, n) in c.coef_blocks]
             if c.kind == "integral":
-                flags = list(c.ir.enabled_coefficients)
-                used = [any(off <= k < off + n for k in rw) for (_, off, n) in c.coef_blocks]
-                chk.case("read_set", f"{c.name}:{''.join('1' if u else '0' for u in used)}",
-                         sample={"kernel": c.name, "w_reads": len(rw), "blocks": c.coef_blocks, "enabled": [bool(f) for f in flags]}
-                         if len(chk.samples) < 4 else None)
+                flags = [bool(f) for f in c.ir.enabled_coefficients]
                 if len(flags) != len(c.coef_blocks):
                     chk.violation(f"c05:enabled-length:{e.name}", "enabled_coefficients has the wrong length",
-                                  {"kernel": c.name, "flags": [bool(f) for f in flags], "blocks": c.coef_blocks})
+                                  {"kernel": c.name, "flags": flags, "blocks": c.coef_blocks})
                     continue
-                for j, (f, u) in enumerate(zip(flags, used)):
-                    if u and not f:
+            else:
+                flags = [True] * len(dims)  # expression kernels carry no flags: attribution only
+            space = tuple_space(chk, c)
+            ent0, prm0 = space[0]
+            tuples = " ".join(f"({_sx(ent)} {_sx(prm)})" for ent, prm in space)
+            r = d.ask(f"(coefreads {c.ast_sexp} {width} {_sx(dims)} {_sx('true' if f else 'false' for f in flags)} "
+                      f"{shape_inputs(c, ent0, prm0)} {tuples})")
+            if r[0] != "ok" or len(r) != 1 + len(space):
+                chk.disagree("read-set run fails", {"kernel": c.name, "reply": r[:3]})
+                continue
+            rw, rc, used_lean = set(), set(), set()
+            unknown = False
+            for (ent, prm), t in zip(space, r[1:]):
+                chk.case("read_tuple", None)
+                if t and t[0] == "err":
+                    chk.disagree("read-set run fails", {"kernel": c.name, "entity": ent, "perm": prm, "reply": t})
+                    continue
+                avoid, inb, used, wr, cr, unk = t
+                wr, cr = [int(v) for v in wr], [int(v) for v in cr]
+                rw.update(wr)
+                rc.update(cr)
+                used_lean.update(int(v) for v in used)
+                unknown = unknown or unk == "true"
+                if inb != "true" and unk != "true":
+                    chk.violation(f"c05:w-read-outside:{e.name}", "read of w outside all coefficient blocks (readsInBlocksB fails)",
+                                  {"kernel": c.name, "entity": ent, "perm": prm, "reads": wr[:20], "extent": c.sizes["w"]})
+                if avoid != "true" and unk != "true" and inb == "true":
+                    hit = [j for j, ((_, off, n), f) in enumerate(zip(c.coef_blocks, flags)) if not f and any(off <= k < off + n for k in wr)]
+                    if not hit:
+                        chk.disagree("readsAvoidB fails but no read lies in a disabled block (model vs harness)", {"kernel": c.name, "reads": wr[:20]})
+                    for j in hit:
+                        off, n = c.coef_blocks[j][1], c.coef_blocks[j][2]
                         chk.violation(f"c05:disabled-but-read:{e.name}",
-                                      f"coefficient {j} is flagged disabled but the kernel reads its block of w",
-                                      {"kernel": c.name, "coefficient": j, "block": c.coef_blocks[j],
-                                       "reads_in_block": sorted(k for k in rw if c.coef_blocks[j][1] <= k < c.coef_blocks[j][1] + c.coef_blocks[j][2])[:10]})
+                                      f"coefficient {j} is flagged disabled but the kernel reads its block of w (readsAvoidB fails)",
+                                      {"kernel": c.name, "coefficient": j, "block": c.coef_blocks[j], "entity": ent, "perm": prm,
+                                       "reads_in_block": [k for k in wr if off <= k < off + n][:10]})
+            if unknown:
+                chk.disagree("a subscript of w/c could not be evaluated statically", {"kernel": c.name})
+            if rc and (min(rc) < 0 or max(rc) >= c.sizes["c"]):
+                chk.violation(f"c05:c-read-outside:{e.name}", "read of c outside all constant blocks", {"kernel": c.name, "reads": sorted(rc)[:20]})
+            # the model's per-read attribution (blockOf) against the harness' own interval test
+            used = [any(off <= k < off + n for k in rw) for (_, off, n) in c.coef_blocks]
+            if sorted(used_lean) != [j for j, u in enumerate(used) if u] and all(0 <= k < c.sizes["w"] for k in rw):
+                chk.disagree("per-read block attribution (blockOf) vs the blocks computed from UFL",
+                             {"kernel": c.name, "model": sorted(used_lean), "harness": used, "blocks": c.coef_blocks})
+            if c.kind == "integral":
+                chk.case("read_set", f"{c.name}:{''.join('1' if u else '0' for u in used)}",
+                         sample={"kernel": c.name, "w_reads": len(rw), "blocks": c.coef_blocks, "enabled": flags, "tuples": len(space)}
+                         if len(chk.samples) < 4 else None)
+                if any(not f for f in flags):
+                    chk.hist["read_set:has-disabled-coefficient"] = chk.hist.get("read_set:has-disabled-coefficient", 0) + 1
             else:
                 chk.case("read_set", f"{c.name}:expr")
 
@@ -124,17 +192,21 @@ def packing_oracle(chk, ents):
 
 
 def run(chk):
-    chk.rule = ("layout: real IR offsets/positions vs the Lean prefix-sum model on corpus + synthetic forms; read sets: for every kernel the Lean "
-                "driver computes the indices of w and c read over ALL entity/permutation tuples (both branches of conditionals) and compares "
-                "them with the coefficient blocks (from UFL) and enabled_coefficients; distinct = kernel × used-block pattern. "
+    chk.rule = ("layout: real IR offsets/positions vs the Lean prefix-sum model on corpus + synthetic forms; real index expressions of "
+                "symbols.coefficient_dof_access(_blocked) evaluated by the Lean evalI vs coeffAccess; read sets: for every kernel the Lean "
+                "driver decides readOnly for the five input arrays and, for every (entity, permutation) tuple up to "
+                f"{TUPLE_CAP['quick']} (quick) / {TUPLE_CAP['thorough']} (thorough) per kernel (above: extreme tuples + seeded sample), "
+                "readsAvoidB (reads of w avoid the blocks of disabled coefficients) and readsInBlocksB/blockOf (per-read block attribution), "
+                "with the blocks computed from UFL and the flags of the IR; distinct = kernel × used-block pattern. "
                 "search: C kernels with NaN in disabled coefficients' storage.")
-    chk.trusted += ["read sets are computed by the (unverified) driver evaluation of execReads; the noninterference theorem connecting them to exec is unread_irrelevant"]
+    chk.trusted += ["readOnly / readsAvoidB / readsInBlocksB are evaluated by the (unverified) native driver; the theorems connecting them "
+                    "to exec are unread_irrelevant, disabled_irrelevant, reads_in_blocks (readsAvoidB_eq: what the driver evaluates)"]
     chk.lean(L.LAYOUT_MODULE, L.C05_THEOREMS, extra_files=L.LAYOUT_FILES)
-    chk.lean("FfcxProofs.C05", ["Ffcx.LNodes.unread_irrelevant", "Ffcx.LNodes.reads_data_independent"])
+    chk.lean("FfcxProofs.C05", C05_KERNEL_THEOREMS,
+             extra_files=[L.LEAN / "FfcxModel/LNodes/ReadBlocks.lean", L.LEAN / "FfcxModel/LNodes/Reads.lean", L.LEAN / "FfcxModel/LNodes/ReadOnly.lean"])
     with lean.Driver("driver_layout") as d:
         L.check_c05_layout(chk, d)
-    ents = _entries(chk)
-    with lean.Driver("driver") as d:
+        ents = _entries(chk)
         read_sets(chk, d, ents)
     sel = [e for e in ents if e.kind == "form"]
     if chk.tier == "quick":
